@@ -127,37 +127,27 @@ theorem length_filterMap_getElem? (s L : List Nat) (h : ∀ i ∈ L, i < s.lengt
 theorem trace_eq_spec (s : Shape) (off : Int) (a1 a2 : Int) (ax1 ax2 n1 n2 : Nat)
     (hax1 : normAxis a1 s.length = some ax1) (hax2 : normAxis a2 s.length = some ax2)
     (h12 : ax1 ≠ ax2) (hn1 : s[ax1]? = some n1) (hn2 : s[ax2]? = some n2)
-    (hoff : 0 ≤ off) (hne : off < n2) (hn1pos : 0 < n1) :
+    (hlo : -(n1 : Int) < off) (hhi : off < n2) :
     ∃ r sp, trace s off a1 a2 = some r ∧ specTrace s off ax1 ax2 = some sp ∧ r.shape = sp.shape ∧
       ∀ d, InShape d sp.shape →
         r.get d = (sp.get d).map (fun i => some (computeOffset i (strides s))) ∧ ∀ i ∈ sp.get d, InShape i s := by
-  have ho1 : (-off).toNat = 0 := by omega
   let rest := ((List.range s.length).filter (fun i => decide (i ≠ ax1 ∧ i ≠ ax2))).filterMap (fun i => s[i]?)
-  let len := min (n1 - 0) (n2 - off.toNat)
+  let len := min (n1 - (-off).toNat) (n2 - off.toNat)
   have hsd : shapeDiagonal s off ax1 ax2 = some (rest ++ [len]) := by
     unfold shapeDiagonal
     simp only [hn1, hn2]
-    have hlt : ¬ off < 0 := by omega
-    simp only [if_neg hlt]
-    by_cases hpos : off > 0
-    · simp only [if_pos hpos]
-      split <;> rename_i hc
-      · rw [if_pos (by omega)]; simp only [rest, len]; congr 2; congr 1; omega
-      · rw [if_pos (by omega)]; simp only [rest, len]; congr 2; congr 1; omega
-    · have : off = 0 := by omega
-      subst this
-      simp only [if_neg hpos]
-      split <;> rename_i hc
-      · rw [if_pos (by omega)]; simp only [rest, len]; congr 2; congr 1; omega
-      · rw [if_pos (by omega)]; simp only [rest, len]; congr 2; congr 1; omega
+    simp only [rest, len]
+    congr 2; congr 1
+    repeat' split
+    all_goals omega
   have htr : trace s off a1 a2 = some (sumLast 1 (⟨rest ++ [len], fun d => leafRead s (diagonalIdx s.length d off ax1 ax2)⟩ : Arr (Option Nat))) := by
     unfold trace
     simp only [hax1, hax2, hsd, Option.bind_eq_bind, Option.bind_some, Option.pure_def]
     rw [if_neg (by simp)]
   have hsp : specTrace s off ax1 ax2 = some ⟨rest, fun d =>
-      (List.range len).map (fun i => placeIdx [ax1, ax2] [i + 0, i + off.toNat] (List.range s.length) d)⟩ := by
+      (List.range len).map (fun i => placeIdx [ax1, ax2] [i + (-off).toNat, i + off.toNat] (List.range s.length) d)⟩ := by
     unfold specTrace
-    simp only [hn1, hn2, ho1]
+    simp only [hn1, hn2]
     rw [if_pos h12]
   refine ⟨_, _, htr, hsp, ?_, ?_⟩
   · rw [sumLast_one_shape _ rest len rfl]
@@ -170,9 +160,9 @@ theorem trace_eq_spec (s : Shape) (off : Int) (a1 a2 : Int) (ax1 ax2 n1 n2 : Nat
       simp only [rest] at h1
       rw [length_filterMap_getElem? s _ (fun i hi => List.mem_range.1 (List.mem_filter.1 hi).1)] at h1
       omega
-    have hterm : ∀ i, i < len → InShape (placeIdx [ax1, ax2] [i + 0, i + off.toNat] (List.range s.length) d) s := by
+    have hterm : ∀ i, i < len → InShape (placeIdx [ax1, ax2] [i + (-off).toNat, i + off.toNat] (List.range s.length) d) s := by
       intro i hi
-      have := placeIdx_inShape s ax1 ax2 (i + 0) (i + off.toNat) n1 n2 h12 hn1 hn2 (by simp only [len] at hi; omega)
+      have := placeIdx_inShape s ax1 ax2 (i + (-off).toNat) (i + off.toNat) n1 n2 h12 hn1 hn2 (by simp only [len] at hi; omega)
         (by simp only [len] at hi; omega) (List.range s.length) d (fun j hj => List.mem_range.1 hj) hd
       rwa [filterMap_getElem?_range] at this
     constructor
@@ -184,11 +174,10 @@ theorem trace_eq_spec (s : Shape) (off : Int) (a1 a2 : Int) (ax1 ax2 n1 n2 : Nat
       have hgl : (d ++ [i]).getLast? = some i := by simp
       rw [hgl]
       simp only
-      have hc : (i : Int) + off = ((i + off.toNat : Nat) : Int) := by omega
-      have hc0 : (i : Int) = ((i + 0 : Nat) : Int) := by simp
-      rw [hc]
-      conv => lhs; rw [hc0]
-      rw [diagonalFill_eq_placeIdx ax1 ax2 (i + 0) (i + off.toNat) h12 (List.range s.length) d [i] hlenfree]
+      have hc1 : (i : Int) + (if off < 0 then -off else 0) = ((i + (-off).toNat : Nat) : Int) := by split <;> omega
+      have hc2 : (i : Int) + (if off > 0 then off else 0) = ((i + off.toNat : Nat) : Int) := by split <;> omega
+      rw [hc1, hc2]
+      rw [diagonalFill_eq_placeIdx ax1 ax2 (i + (-off).toNat) (i + off.toNat) h12 (List.range s.length) d [i] hlenfree]
       rw [leafRead_inShape (hterm i hi')]
     · intro idx hidx
       simp only [List.mem_map, List.mem_range] at hidx
